@@ -735,13 +735,14 @@ fn zero_density<I: IdealGas + 'static>(cfg: &Config, ig: Arc<I>, t: f64, x: &[f6
         };
         let p_ig = st.pressure(Contributions::IdealGas).to_reduced();
         let z_res = st.pressure(Contributions::Residual).to_reduced() / p_ig;
+        // right away: a later higher-order call refreshes the cached first derivative with a value that differs by round-off
+        let tot_minus_ig = (st.pressure(Contributions::Total).to_reduced() - p_ig) / p_ig;
         let a_res = st.residual_helmholtz_energy().to_reduced() / (ntot * t);
         let s_res = st.residual_entropy().to_reduced() / ntot;
         let mu_res = st.residual_chemical_potential().to_reduced().iter().map(|m| (m / t).abs()).fold(0.0, f64::max);
         let cv_res = st.residual_molar_isochoric_heat_capacity().to_reduced();
         let h_res = st.residual_molar_enthalpy().to_reduced() / t;
         let dpdv_rel = st.dp_dv(Contributions::Residual).to_reduced() / st.dp_dv(Contributions::IdealGas).to_reduced();
-        let tot_minus_ig = (st.pressure(Contributions::Total).to_reduced() - p_ig) / p_ig;
         // magnitude of the individual contributions (round-off scale of the sum)
         let a_abs: f64 = st.residual_helmholtz_energy_contributions().iter().map(|(_, a)| a.to_reduced().abs()).sum::<f64>() / (ntot * t);
         rows.push(json!({"frac": f, "a_abs": a_abs, "z_res": z_res, "a_res": a_res, "s_res": s_res, "mu_res": mu_res, "cv_res": cv_res, "h_res": h_res,
